@@ -249,7 +249,7 @@ REGISTRY = {
         "assumptions": COMMON_ASSUMPTIONS,
     },
     "C08": {
-        "rules": [record.rule_record, record.rule_record_written, record.rule_forked_record_object, iso.rule_flag_setter_total, record.rule_absorb_keyed, record.rule_clients, record.rule_record_consumers, iso.rule_iso_claim, iso.rule_iso_invalidate],
+        "rules": [record.rule_record, record.rule_record_written, record.rule_forked_record_object, record.rule_swap_precondition, iso.rule_flag_setter_total, record.rule_absorb_keyed, record.rule_clients, record.rule_record_consumers, iso.rule_iso_claim, iso.rule_iso_invalidate],
         "explanation": (
             "static (typestate-style rules over the record-aware functions of tn1d/core.py and their circuit "
             "clients): decides that the canonical-form record is threaded to every record-aware callee, is only "
